@@ -54,6 +54,8 @@ PROPS = {
     'C06': dict(workload='C06', oracle=['C06', 'C01', 'C02', 'C04'], project=proj_identity,
                 quick=['std-lax', 'std-strict'], thorough=list(CONFIGS)),
     'C18': dict(custom='c18_check'),
+    'C07': dict(workload='C07', oracle=['C07'], project=proj_accept,
+                quick=['std-lax', 'std-strict'], thorough=list(CONFIGS)),
     'C08': dict(workload='C08', oracle=['C08'], project=proj_identity,
                 quick=['std-lax'], thorough=['std-lax', 'nostd-lax']),
     'C09': dict(workload='C09', oracle=['C09'], project=proj_identity, spec_ops=('contchk',),
@@ -282,9 +284,15 @@ def run_workload(pid, cfg, binpath, workload, seed, tier, extra_env=None, tag=''
             os.remove(os.path.join(outdir, f))
         except FileNotFoundError:
             pass
+    try:
+        os.remove(os.path.join(outdir, 'current.txt'))
+    except FileNotFoundError:
+        pass
     rc, out = run([binpath, workload, str(seed), tier, outdir], env=extra_env)
     if rc != 0:
-        return dict(error='harness exited %d: %s' % (rc, out[-1500:]), outdir=outdir)
+        cur = os.path.join(outdir, 'current.txt')
+        aborted = open(cur).read().strip() if os.path.exists(cur) else None
+        return dict(error='harness exited %d: %s' % (rc, out[-1500:]), outdir=outdir, aborted_case=aborted, rc=rc)
     with open(os.path.join(outdir, 'cases.txt')) as fin, open(os.path.join(outdir, 'model.txt'), 'w') as fout:
         p = subprocess.run([DRIVER], stdin=fin, stdout=fout, stderr=subprocess.PIPE)
     if p.returncode != 0:
@@ -389,7 +397,13 @@ def run_check(pid, tier, only_cfgs=None, quiet=False):
     for cfg, binpath, wl in runs:
         r = run_workload(pid, cfg, binpath, wl, seed, tier, tag='-' + wl)
         if 'error' in r:
-            build_errors.append((cfg, r['error']))
+            if r.get('aborted_case'):
+                # the process died (abort / stack overflow / allocation failure) inside the real code
+                violations.append((cfg, r['aborted_case'], 'the process aborted (exit %s) while decoding this input' % r.get('rc'),
+                                   'impl-violates-property'))
+                stats['oracle_failures'] += 1
+            else:
+                build_errors.append((cfg, r['error']))
             continue
         od = r['outdir']
         cases = read_lines(os.path.join(od, 'cases.txt'))
